@@ -373,7 +373,9 @@ class SgzConverter(SgzReader):
                                 buffer[u*self.chunk_bytes + z*self.unit_bytes:
                                        u*self.chunk_bytes + (z+1)*self.unit_bytes]
                         outfile.write(new_block)
-            self.read_variant_headers()
+            # Footer arrays cover the whole grid, also for irregular files (not only the populated positions)
+            self.clear_variant_headers()
+            self.read_variant_headers(include_padding=True)
             for k in self.stored_header_keys:
                 header_array_bytes = self.variant_headers[k].tobytes()
                 if self.file_version > SeismicZfpVersion("0.2.1"):
